@@ -22,13 +22,13 @@ def E(name, run, shards=1, **kw):
 CHECKS = {
     "C01": dict(
         title="Balance: supply = sum of balances, no negative balance",
-        quick=dict(groups=[G("stateful", "^TestC01Stateful$", 500, 8)]),
-        thorough=dict(groups=[G("stateful", "^TestC01Stateful$", 6000, 16)]),
+        quick=dict(groups=[G("stateful", "^TestC01Stateful$", 500, 8), E("abi-sweep", "^TestC01ABISweep$", 6)]),
+        thorough=dict(groups=[G("stateful", "^TestC01Stateful$", 6000, 16), E("abi-sweep", "^TestC01ABISweep$", 12)]),
     ),
     "C02": dict(
         title="Balance: debits need the holder's or the Alphabet's authorisation",
-        quick=dict(groups=[G("stateful", "^TestC02Stateful$", 300, 7), E("matrix", "^TestC02Matrix$")]),
-        thorough=dict(groups=[G("stateful", "^TestC02Stateful$", 5000, 15), E("matrix", "^TestC02Matrix$")]),
+        quick=dict(groups=[G("stateful", "^TestC02Stateful$", 300, 7), E("matrix", "^TestC02Matrix$"), E("abi-sweep", "^TestC02ABISweep$", 6)]),
+        thorough=dict(groups=[G("stateful", "^TestC02Stateful$", 5000, 15), E("matrix", "^TestC02Matrix$"), E("abi-sweep", "^TestC02ABISweep$", 12)]),
     ),
     "C09": dict(
         title="Balance locks return exactly once at expiry unless burnt",
